@@ -64,6 +64,39 @@ def run_rt(prop, tier, seed, replay=None):
     return res
 
 
+def model_to_args(model):
+    def conv(v):
+        if isinstance(v, list) and len(v) == 2 and all(isinstance(x, int) for x in v) and v[1] != 0 and False:
+            return v[0] / v[1]
+        return v
+
+    def num(v):
+        if isinstance(v, list) and len(v) == 2 and all(isinstance(x, int) for x in v):
+            return v[0] / v[1]
+        return v
+
+    def arr(d):
+        if isinstance(d, list) and d and isinstance(d[0], list) and not (len(d) == 2 and all(isinstance(x, int) for x in d)):
+            return [arr(x) for x in d]
+        if isinstance(d, list) and len(d) == 2 and all(isinstance(x, int) for x in d):
+            return d        # ambiguous: a 2-element int array or a rational; decided by the caller's type conversion
+        return d
+    out = {}
+    try:
+        for k, v in model.items():
+            if isinstance(v, dict):
+                if v.get("data") is None:
+                    return None
+                out[k] = v["data"]
+            elif v is None:
+                return None
+            else:
+                out[k] = num(v)
+    except Exception:
+        return None
+    return out
+
+
 def run_t1(prop, tier, seed):
     try:
         from pyvc import driver
@@ -133,6 +166,23 @@ def main():
             if hit:
                 fl["has_input"] = True
                 fl["failing_input"] = hit[0].get("detail")
+            elif fl.get("model"):
+                # replay the solver's counter-model against the real function through its run-time contract
+                args = model_to_args(fl["model"])
+                if args is not None:
+                    fd, tmp = tempfile.mkstemp(prefix="model-", suffix=".json", dir=C.CACHE_DIR)
+                    with os.fdopen(fd, "w") as f:
+                        json.dump({"site": fl["site"], "detail": {"args": args}}, f)
+                    rr = run_rt(prop, tier, seed, replay=tmp)
+                    os.unlink(tmp)
+                    if rr.get("fails"):
+                        fl["has_input"] = True
+                        fl["failing_input"] = rr["fails"][0].get("detail")
+                        fl["replayed_model"] = "the solver's counter-model violates clause %s on the real function" % \
+                            rr["fails"][0].get("clause")
+                    else:
+                        fl["replayed_model"] = "the solver's counter-model does not violate the contract when run on " \
+                                               "the real function (e.g. a state unreachable from the loop entry)"
             failures.append(fl)
     if t2:
         crashes += t2.get("crashes", [])
